@@ -141,7 +141,7 @@ func (r *Report) Finish() int {
 				fmt.Printf("VACUOUS: %s is unreachable under the assumed contracts (%s)\n", cv.Name, cv.Clause)
 				engineErr = true
 				coversBad++
-			case "sat":
+			case "sat", "dead-path":
 				coversOK++
 			default:
 				coversUndecided++
